@@ -97,6 +97,9 @@ pub fn valid_case(r: &Req) -> bool {
     if r.f.starts_with("C08") {
         return true;
     }
+    if super::c13::FNS.contains(&r.f.as_str()) {
+        return super::c13::valid_case(r);
+    }
     if !super::c05::valid_case(r) {
         return false;
     }
@@ -166,5 +169,5 @@ pub fn generate(tier: &str, rng: &mut Rng) -> (Vec<String>, bool) {
 }
 
 pub fn rule(tier: &str) -> String {
-    format!("every null-aware catalogued entry point on the same logical series under the four encodings (f64 NaN, f32 NaN, Option<f64> None, Option<i32> None) x four output element types (f64, f32, Option<f64>, Option<i32>): all 16 cells must equal the single model result; exhaustive over {{null,0,1,3}}^len, len <= {}, windows {{1,2,3,len+1}}, min_periods {{omitted,1,w}}, plus random integral series to length 45; null-insertion transparency: for 20 aggregation / order-statistic configurations (vrank x3 on the valid entries, count_valid, vsum, vmean, vmax, vmin, vmean_var, vvar, vstd, vskew, vkurt, vcov, vcorr_pearson, vquantile x2, vmedian, vpercentile_of x2) every base series over {{null,0,1,3}} up to length 4 with 7-9 insertion masks (leading, trailing, interleaved, blocks; pairwise patterns for two-series functions): result on the base series and on the series with nulls inserted both compared with the model. non-trivial = len >= 2 with a non-null output.", if tier == "thorough" { 5 } else { 3 })
+    format!("every null-aware catalogued entry point on the same logical series under the four encodings (f64 NaN, f32 NaN, Option<f64> None, Option<i32> None) x four output element types (f64, f32, Option<f64>, Option<i32>): all 16 cells must equal the single model result; exhaustive over {{null,0,1,3}}^len, len <= {}, windows {{1,2,3,len+1}}, min_periods {{omitted,1,w}}, plus random integral series to length 45; null-insertion transparency: for 20 aggregation / order-statistic configurations (vrank x3 on the valid entries, count_valid, vsum, vmean, vmax, vmin, vmean_var, vvar, vstd, vskew, vkurt, vcov, vcorr_pearson, vquantile x2, vmedian, vpercentile_of x2) every base series over {{null,0,1,3}} up to length 4 with 7-9 insertion masks (leading, trailing, interleaved, blocks; pairwise patterns for two-series functions): result on the base series and on the series with nulls inserted both compared with the model; mappings: every null-aware mapping of tea-map (shift, vshift, vdiff, vpct_change, ffill, bfill, fill, the three *_mask forms with 6 predicates, vclip with lower / upper bounds incl. one-sided (null) bounds, vabs) on every series over {{null,-2,0,3}} up to length {} under each null-capable encoding it accepts (f64 NaN, Option<f64> None, Option<i32> None), each cell compared with the one model result. non-trivial = len >= 2 with a non-null output.", if tier == "thorough" { 5 } else { 3 }, if tier == "thorough" { 4 } else { 3 })
 }
